@@ -9,9 +9,12 @@ import (
 	"strconv"
 	"strings"
 
+	ad "github.com/pbenner/autodiff"
+
 	"verifharness/internal/fw"
 	"verifharness/internal/gen"
 	"verifharness/internal/prng"
+	"verifharness/internal/snap"
 )
 
 var tableKinds = []string{"dense-vector", "sparse-vector", "dense-matrix", "sparse-matrix"}
@@ -387,5 +390,142 @@ func malformedTableCase(cs *fw.Case) {
 		} else {
 			cs.Cover(monitor + ":outcome:accepted-consistent")
 		}
+	}
+}
+
+/* hand-written variants of a valid table file: the same content with and
+ * without a final newline, with CRLF line ends, trailing blank lines, blanks at
+ * line ends, tabs as separators - all must read back as the canonical file does
+ * -------------------------------------------------------------------------- */
+
+var tableVariants = []string{"no-final-newline", "crlf", "crlf+no-final-newline", "trailing-blank-lines", "trailing-spaces", "trailing-spaces+no-final-newline",
+	"leading-spaces", "tab-separated", "double-space-separated", "blank-lines-between", "final-newline-only-spaces"}
+
+func tableVariant(canonical string, variant string, r *prng.Rand) string {
+	lines := splitLines(canonical)
+	body := strings.Join(lines, "\n")
+	switch variant {
+	case "no-final-newline":
+		return body
+	case "crlf":
+		return strings.Join(lines, "\r\n") + "\r\n"
+	case "crlf+no-final-newline":
+		return strings.Join(lines, "\r\n")
+	case "trailing-blank-lines":
+		return body + "\n" + strings.Repeat("\n", r.Range(1, 3))
+	case "trailing-spaces":
+		return strings.Join(lines, " \n") + " \n"
+	case "trailing-spaces+no-final-newline":
+		return strings.Join(lines, " \n") + "  "
+	case "leading-spaces":
+		return "  " + strings.Join(lines, "\n  ") + "\n"
+	case "tab-separated":
+		return strings.ReplaceAll(body, " ", "\t") + "\n"
+	case "double-space-separated":
+		return strings.ReplaceAll(body, " ", "  ") + "\n"
+	case "blank-lines-between":
+		return strings.Join(lines, "\n\n") + "\n"
+	case "final-newline-only-spaces":
+		return body + "\n   \n"
+	}
+	return canonical
+}
+
+func tableVariantCase(cs *fw.Case) {
+	const monitor = "table.variants"
+	r := cs.R
+	i := cs.Index
+	t := gen.Types[i%9]
+	kind := tableKinds[(i/9)%4]
+	variant := tableVariants[(i/36)%len(tableVariants)]
+	gz := (i/(36*len(tableVariants)))%3 == 2
+	dir := scratchDir(cs)
+	defer removeScratch(dir)
+	path := filepath.Join(dir, "canonical.table")
+	var obj any
+	var err error
+	if p := fw.Call(func() {
+		obj = validObject(kind, t, r)
+		err = obj.(exporter).Export(path)
+	}); p != nil || err != nil {
+		cs.Skip("source-not-exportable")
+		return
+	}
+	typ := typeName(obj)
+	canonical, _ := os.ReadFile(path)
+	if len(splitLines(string(canonical))) == 0 {
+		cs.Skip("empty-table")
+		return
+	}
+	// reference: what the reader makes of the writer's own file
+	ref, getRef := decodeTarget(kind, t, r)
+	if p := fw.Call(func() { err = ref.(importer).Import(path) }); p != nil || err != nil {
+		cs.Skip("canonical-file-not-importable")
+		return
+	}
+	isMat := strings.HasSuffix(kind, "matrix")
+	var s0v, s0m any
+	if isMat {
+		s, p := snapMatrix(getRef().(ad.Matrix))
+		if p != nil {
+			cs.Skip("canonical-object-unreadable")
+			return
+		}
+		s0m = s
+	} else {
+		s, p := snapVector(getRef().(ad.Vector))
+		if p != nil {
+			cs.Skip("canonical-object-unreadable")
+			return
+		}
+		s0v = s
+	}
+	text := tableVariant(string(canonical), variant, r)
+	data := []byte(text)
+	if gz {
+		var buf bytes.Buffer
+		w := gzip.NewWriter(&buf)
+		w.Write(data)
+		w.Close()
+		data = buf.Bytes()
+	}
+	vpath := filepath.Join(dir, "variant.table")
+	if err := os.WriteFile(vpath, data, 0o644); err != nil {
+		panic(err)
+	}
+	cs.Cover(monitor + ":" + typ)
+	cs.Cover(monitor + ":variant:" + variant)
+	if gz {
+		cs.Cover(monitor + ":gzip")
+	}
+	cs.Cover("set:" + monitor + "-cells:" + typ + "/" + variant)
+	cs.Nontrivial(typ, variant, text, gz)
+	cs.Sample(map[string]any{"reader": typ + ".Import", "variant": variant, "gzip": gz, "file": clip(text, 300)})
+	w := map[string]any{"reader": typ + ".Import", "variant": variant, "gzip": gz, "file": clip(text, 1500), "canonical": clip(string(canonical), 1500)}
+	target, get := decodeTarget(kind, t, r)
+	storage := gen.Dense
+	if strings.HasPrefix(kind, "sparse") {
+		storage = gen.Sparse
+	}
+	o := cmpOpts{isInt: t.IsInt, bitExact: storage == gen.Dense}
+	if p := fw.Call(func() { err = target.(importer).Import(vpath) }); p != nil {
+		cs.Violation(sig(monitor, typ+".Import", variant, "any", "panic"), "reading an equivalent spelling of a valid table panics: "+p.Msg+" @ "+p.Frame, w)
+		return
+	}
+	if err != nil {
+		// the property promises no lenient parsing: answering an unusual spelling
+		// with an error is allowed (counted), reading another object is not
+		cs.Cover(monitor + ":rejected:" + variant + "/" + storage)
+		return
+	}
+	cs.Cover(monitor + ":accepted:" + variant)
+	var f *failure
+	if isMat {
+		f = compareMatrix(s0m.(snap.Mat), get().(ad.Matrix), t, o, storage == gen.Sparse)
+	} else {
+		f = compareVector(s0v.(snap.Vec), get().(ad.Vector), t, o, storage == gen.Sparse)
+	}
+	if f != nil {
+		cs.Violation(sig(monitor, typ+".Import", variant, "any", f.Kind), "the object read from an equivalent spelling differs from the one read from the canonical file: "+f.Detail, w)
 	}
 }
